@@ -129,7 +129,7 @@ def run(ctx):
                 ctx.violation(dict(kind='benign-parse-does-more-than-read', file=os.path.basename(f), events=bad[:10],
                                    how='ReplayParser(file).get_info() under sys.addaudithook (tools/c18.audited_parse)'))
         # (2) hostile pickles in every pickled argument
-        wv = battle.wows_versions(); picks = wv if not q else [wv[i] for i in range(0, len(wv), 8)]
+        wv = battle.wows_versions(); picks = wv if not q else battle.representative_versions(9)[1::2]
         orig_dumps = pickle.dumps
         for v in picks:
             p = os.path.join(tmp, 'hostile-%s.wowsreplay' % v)
